@@ -251,6 +251,14 @@ func init() {
 				cs = append(cs, Case{ID: fmt.Sprintf("hb%d.%d", pi, ti), Op: "run", Fields: []string{hx("find all " + prog), hx(text)}, Meta: map[string]string{}})
 			}
 		}
+		// line classes on texts with carriage returns in every position: several before a line feed, alone, at the ends
+		for pi, prog := range []string{"whole line", "whole line line end", "line start whole line", "line start any", "any line end", "not line end any",
+			"at least 1 (not in '\n')", "whole line '\r\n'", "(whole line) = l maybe '\n' l"} {
+			for ti, text := range []string{"ab\r\r\ncd\r\n", "\r\r\n", "a\r\rb\r\n", "ab\r", "\rab\n\r", "a\r\n\r\nb", "ab\r\r\r\n\r\r\ncd", "x\n\r\ny\r"} {
+				st.Features["line-classes-with-carriage-returns"]++
+				cs = append(cs, Case{ID: fmt.Sprintf("cr%d.%d", pi, ti), Op: "run", Fields: []string{hx("find all " + prog), hx(text)}, Meta: map[string]string{}})
+			}
+		}
 		// texts beyond one 4096-byte block (the scan itself, not only the reader, may work block-wise)
 		cs = append(cs, bigTextCases(r, st, sizes(tier, 52, 260), "big")...)
 		return append(cs, extremeCases(st, "x")...)
